@@ -3,8 +3,8 @@
    Case line = a lyx script with pseudo commands (lyx answers ?cmd to commands starting with #):
      docm TAB #s <schema> TAB #n <names> TAB #m <modules> TAB #k <json kinds> TAB #d <dump of t0> TAB
           { #b <fmt> <print opts> <hex of what libyang printed> } TAB <lyx commands>
-   The model answers first  W=<six bits>  (the executable hypotheses of the theorems hold on the dump: tabs_okb, canonb,
-   docb lexableb, docb std_valb, jdocb jlexb, jdocb nonulb), then for every #b command
+   The model answers first  W=<seven bits>  (the executable hypotheses of the theorems hold on the dump: tabs_okb, canonb,
+   docb lexableb, docb std_valb, jdocb jlexb, jdocb nonulb, parents_ltb), then for every #b command
      <fmt><opts> <hex of the MODEL's print of the dump> R=<the model's reader applied to LIBYANG's bytes gives
      clear_dflt (prune sel dump)> G=<the standard reader applied to libyang's bytes gives to_generic (prune sel dump)>
    joined by " | ". fmt: x XML, j JSON. opts: LYD_PRINT_* bits (0x01 siblings, 0x02 shrink, 0x04 keep empty containers,
@@ -57,7 +57,8 @@ let run (f : string list) : string =
          let b2 b = if b then "1" else "0" in
          let hyp = "W=" ^ b2 (tabs_okb sch tabs) ^ b2 (canonb sch None fo) ^
                    b2 (List.for_all (docb sch tabs lexableb) fo) ^ b2 (List.for_all (docb sch tabs std_valb) fo) ^
-                   b2 (List.for_all (jdocb sch tabs jk jlexb) fo) ^ b2 (List.for_all (jdocb sch tabs jk nonulb) fo) in
+                   b2 (List.for_all (jdocb sch tabs jk jlexb) fo) ^ b2 (List.for_all (jdocb sch tabs jk nonulb) fo) ^
+                   b2 (parents_ltb sch) in
          let answers = hyp :: List.filter_map (fun c ->
            if starts c "#b " then begin
              match String.split_on_char ' ' c with
